@@ -147,6 +147,14 @@ func c02Stanza(g G, kind string, i int, compNS bool) string {
 	if g.Pct("lang", 15) {
 		attrs += " xml:lang='en'"
 	}
+	if g.Pct("foreign-attrs", 8) {
+		// attributes of other namespaces that are called like the addressing attributes, and
+		// namespace declarations whose prefix is called like one: none of them is the element's own
+		attrs += " xmlns:x='urn:example:x' x:to='evil@example' x:id='zz' x:type='result' x:from='nobody'"
+		if g.Bool("xmlns-to") {
+			attrs += " xmlns:to='urn:example:to' xmlns:id='urn:example:id'"
+		}
+	}
 	nsa := ""
 	if g.Pct("explicitns", 20) {
 		if compNS {
